@@ -35,13 +35,18 @@ def b(s):
 VARIANTS = {
     # valid directives (format variations that resolv.conf(5) / c-ares accept)
     "ns_a": ["nameserver 10.0.0.1", "nameserver\t10.0.0.1", "  nameserver   10.0.0.1  ", "nameserver [10.0.0.1]",
-             "nameserver 10.0.0.1 # primary"],
+             "nameserver 10.0.0.1 # primary", "nameserver dns://10.0.0.1", "nameserver dns://10.0.0.1:53"],
     "ns_b": ["nameserver 10.0.0.2", "nameserver [10.0.0.2]", "nameserver 10.0.0.2\t"],
     "ns_6": ["nameserver 2001:db8::1", "nameserver [2001:db8::1]", "nameserver 2001:DB8::1",
-             "nameserver 2001:db8:0:0:0:0:0:1"],
-    "ns_ap": ["nameserver 10.0.0.1:5353", "nameserver [10.0.0.1]:5353"],
+             "nameserver 2001:db8:0:0:0:0:0:1", "nameserver dns://[2001:db8::1]"],
+    "ns_ap": ["nameserver 10.0.0.1:5353", "nameserver [10.0.0.1]:5353", "nameserver dns://10.0.0.1:5353"],
     "ns_6p": ["nameserver [2001:db8::2]:5353", "nameserver\t[2001:DB8::2]:5353"],
-    "ns_ll": ["nameserver fe80::1%lo", "nameserver [fe80::1]%lo", "nameserver [fe80::1]:53%lo"],
+    "ns_ll": ["nameserver fe80::1%lo", "nameserver [fe80::1]%lo", "nameserver [fe80::1]:53%lo",
+              "nameserver dns://[fe80::1%lo]", "nameserver dns://[fe80::1%lo]:53"],
+    "ns_uri_d": ["nameserver dns://10.0.0.3:55?tcpport=56", "nameserver\tdns://10.0.0.3:55?tcpport=56",
+                 "nameserver dns://10.0.0.3:55/?tcpport=56"],
+    "ns_uri_6": ["nameserver dns://[2001:db8::4]:5353", "nameserver dns://[2001:DB8::4]:5353",
+                 "nameserver dns://[2001:db8::4]:5353?tcpport=5353"],
     "dom_a": ["domain a.example", "domain\ta.example", "domain   a.example  "],
     "dom_two": ["domain e.example f.example", "domain e.example,f.example"],
     "search_b": ["search b.example", "search  b.example ", "search b.example,", "search ,b.example"],
@@ -70,6 +75,17 @@ VARIANTS = {
                "nameserver fec0::1", "nameserver fe80::3%nonexistent0", "nameserver 1.2.3.4:99999999",
                "nameserver 1.2.3.4.5", "nameserver ::g", "nameserver 10.0.0.9x", "nameserver 1.2.3.4:53junk",
                "nameserver dns://", "nameserver dns+tls://10.0.0.9", "nameserver %lo"],
+    # URI-form nameserver entries that name no usable server: over-long / unknown link-local scope, over-long or
+    # non-address host, bad port, bad bracket, foreign scheme
+    "ns_uri_bad": ["nameserver dns://[fe80::1%" + "a" * 20 + "]", "nameserver dns://[fe80::1%" + "b" * 40 + "]",
+                   "nameserver dns://[fe80::1%" + "c" * 200 + "]:53?tcpport=54",
+                   "nameserver dns://[fe80::1%" + "d1" * 8 + "]", "nameserver dns://[fe80::1%nonexistent0]",
+                   "nameserver dns://[fe80::1%]", "nameserver dns://[fe80::1]", "nameserver dns://[fe80::1%lo",
+                   "nameserver dns://" + "h" * 300, "nameserver dns://" + "9" * 300 + ".1.1.1",
+                   "nameserver dns://ns.example", "nameserver dns://10.0.0.9:abc",
+                   "nameserver dns://[2001:db8::9", "nameserver dns://[2001:db8::9]]", "nameserver dns://10.0.0.9:",
+                   "nameserver https://10.0.0.9", "nameserver dns:/10.0.0.9",
+                   "nameserver dns://[fec0::1]"],
     "search_empty": ["search ,", "search , ,", "domain ,", "search ,,,"],
     "sort_bad": ["sortlist 10.0.0.0/33", "sortlist 1.2.3.4/foo", "sortlist bogus", "sortlist 10.0.0.0/8 bogus",
                  "sortlist 10.0.0.0/255.255.255.256", "sortlist 2001:db8::/129", "sortlist /8", "sortlist 10.0.0.0/",
@@ -141,7 +157,7 @@ def opt_value(text):
     return t.lstrip()[len(b"options"):].strip() or b" "
 
 
-JUNK = {"ns_bad", "search_empty", "sort_bad", "opt_unknown", "opt_zero", "lookup_junk", "comment_hash",
+JUNK = {"ns_bad", "ns_uri_bad", "search_empty", "sort_bad", "opt_unknown", "opt_zero", "lookup_junk", "comment_hash",
         "comment_semi", "blank", "junk_binary", "junk_long", "junk_keyword", "junk_lone"}
 EXTREME = {"opt_ndots_weird", "opt_ndots_big", "opt_timeout_huge", "opt_tries_huge"}
 NSS_JUNK = {"nss_other_db", "nss_unknown_only", "nss_comment", "nss_junk_binary", "nss_junk_long", "nss_nocolon",
